@@ -150,7 +150,7 @@ package ldb
 // transaction has overwritten, the pending value (read-your-writes); Clear only touches keys under the bucket's own
 // path followed by the separator (so a sibling bucket whose name merely extends this one is not cleared).
 //@ func joinBucketPath
-//@   trusted
+//@   props C11
 //@   pure
 //@   ensures len(arr) == 1 ==> result == arr[0]
 //@   ensures len(arr) == 2 ==> result == arr[0] + "_" + arr[1]
